@@ -547,3 +547,246 @@ PROPS["C10"] = Spec(
     explanation="Theorems: expanding tabs of the hard-tab indentation gives the soft-tab indentation when ci*tw <= 255; indentation = (levels + ci*continuations) units; refuted beyond saturation (F13). The conversion From<&FormattingConfig> is diffed against the model on a grid; the oracle compares real outputs pairwise.",
     assumptions=["H-W3: with unconstrained width the plan does not depend on indentation widths (differential)"],
 )
+
+
+# ------------------------------------------------------------------ C15
+
+def char_boundaries(text: str):
+    """byte offsets of all character boundaries of text (0 .. len)"""
+    offs = [0]
+    n = 0
+    for ch in text:
+        n += len(ch.encode("utf-8"))
+        offs.append(n)
+    return offs
+
+
+def run_c15(ctx):
+    rng = ctx.rng
+    cases = []
+    pool = wellformed_texts(ctx, ctx.n(60, 1500))
+    texts = [t for t, _, _ in pool]
+    variants = []
+    for text, kind, wrap in pool:
+        variants.append((text, kind))
+    # shifted layout, CRLF input, non-ASCII substitution, toggled regions, mutated
+    for text, kind, wrap in pool[:: ctx.n(4, 1)]:
+        r = gen.relayout(text, rng)
+        if r:
+            variants.append((r, "relayout"))
+        variants.append((gen.to_crlf(text), "crlf-input"))
+        variants.append((text.replace("Foo", "Fé").replace("A", "Ä", 1), "nonascii"))
+        rr = insert_region(text, rng)
+        if rr:
+            variants.append((rr[0], "region"))
+        variants.append((gen.mutate(text, rng, texts), "mut"))
+        variants.append(("  " * rng.randrange(0, 4) + text.replace("\n", "\n" + " " * rng.randrange(0, 7)) + "\n\n\n", "indent-shift"))
+    for text, kind in variants:
+        b = char_boundaries(text)
+        n = b[-1]
+        if len(b) > ctx.n(120, 100000):
+            cur = sorted(set(rng.sample(b, ctx.n(120, 100000)) + [0, n]))
+        else:
+            cur = b
+        cur = cur + [n + 1, n + 100, 4294967295]
+        if rng.random() < 0.3:
+            rng.shuffle(cur)
+        cases.append(ctx.case(kind, text, gen.random_cfg(rng), cursors=cur))
+    ctx.run_stream(cases, units=["cursor", "cursororacle", "recon"])
+    ctx.hypotheses["pos_ok for cursors on blank lines in front of ignored tokens"] = "cursororacle: bounds checked on every cursor of every case"
+    ctx.count("cursors_checked", sum(len(c.cursors) for c in cases))
+
+
+PROPS["C15"] = Spec(
+    coq_targets=["theories/Properties/C15.v"], module="Properties.C15",
+    theorems=['C15_offset_for_token_correct', 'C15_in_bounds', 'C15_in_bounds_formatted', 'C15_in_bounds_lf', 'C15_same_offset', 'C15_same_offset_multiline', 'C15_past_end', 'C15_no_underflow', 'C15_boundary_cursor_no_panic', 'C15_regression_ignored_whitespace_crlf', 'C15_in_bounds_all', 'C15_refuted_u16_truncation'],
+    run=run_c15,
+    rule="well-formed seeds and grammar programs plus relayouted, CRLF, non-ASCII, toggled-region, mutated and indentation-shifted variants; cursor list = every character boundary of the input (sampled above 120 in the quick tier) plus three offsets beyond the end, sometimes shuffled; x random configurations",
+    explanation="Theorems over the cursor model: bounds (pos_ok exactly characterised), same offset for unchanged single- and multi-line tokens, past-the-end, no usize underflow, no slicing panic for boundary cursors; bounds now unconditional (F22 repaired); one refutation (F19). The model is diffed against the real cursors on every cursor of every case; the oracle states the property directly on the real output (bounds, char boundary, same offset by independent token alignment, past end, text independent of cursors).",
+    assumptions=["safety net does not fire (class F10)", "text independence of cursors: checked per case by the harness (CURSORDEP)"],
+)
+
+
+# ------------------------------------------------------------------ C12
+
+def gen_literal(rng):
+    q = rng.choice([3, 3, 3, 5, 7])
+    quotes = "'" * q
+    nl = rng.choice(["\n", "\n", "\r\n", "\r", None])
+    ind = rng.choice(["    ", "  ", "\t", "  \t", "", "　 ", "\x0c ", " \x01", "        "])
+
+    def term():
+        return nl if nl is not None else rng.choice(["\n", "\r\n", "\r"])
+    lines = []
+    eligible = True
+    for _ in range(rng.randrange(0, 5)):
+        c = rng.random()
+        body = rng.choice(["abc", "x := 'y';", "日本語 text", "  indented more", "a" * rng.randrange(1, 40), "''", "tab\there"])
+        if c < 0.5:
+            lines.append(ind + body)
+        elif c < 0.6:
+            lines.append("")
+        elif c < 0.7:
+            lines.append(ind[:rng.randrange(0, len(ind) + 1)])
+        elif c < 0.8:
+            lines.append(ind + body + rng.choice(["  ", "\t", " 　"]))
+        elif c < 0.9:
+            lines.append(ind + "   " + body)
+        else:
+            lines.append(body)  # under-indented: ineligible unless ind is empty
+    text = quotes + term() + "".join(l + term() for l in lines) + ind + quotes
+    return text
+
+
+CONTEXTS = ["A := %s;", "Foo(%s, 1);", "const S = %s;", "X := %s + 'a';", "begin\n  if A then\n    B := %s;\nend;", "A := B(C, %s, D);",
+            "procedure P;\nbegin\n  Writeln(%s);\nend;", "%s", "X := Y +\n  %s;", "  {$IFDEF A}\n  S := %s;\n  {$ENDIF}"]
+
+
+def run_c12(ctx):
+    rng = ctx.rng
+    cases = []
+    for _ in range(ctx.n(3000, 60000)):
+        lit = gen_literal(rng)
+        cfg = gen.random_cfg(rng)
+        cases.append(ctx.case("literal", rng.choice(CONTEXTS) % lit, cfg))
+    for s in gen.seeds():
+        if "'''" in s["text"]:
+            cases.append(ctx.case("seed", s["text"], gen.random_cfg(rng, wrap=s["wrap"])))
+            cases.append(ctx.case("seed", s["text"], gen.random_cfg(rng)))
+    ctx.run_stream(cases, units=["mlstring", "mlvalue", "recon"])
+    ctx.hypotheses["H-W5 (re-indentation uses the literal token's final indentation; reflow does not change it)"] = "unit mlstring uses the FINAL counters of the literal token on every case"
+    ctx.hypotheses["plan_ok: a multi-line literal starts its line"] = "unit mlvalue compares interior lines with the literal's own indentation"
+
+
+PROPS["C12"] = Spec(
+    coq_targets=["theories/Properties/C12.v"], module="Properties.C12",
+    theorems=["C12_value_preserved", "C12_reindented", "C12_rewritten_iff_eligible", "C12_idempotent", "C12_nonblank_preserved",
+              "C12_eligible_implies_rewritten"],
+    run=run_c12,
+    rule="generated multi-line literals (3/5/7 quotes; LF, CRLF, CR and mixed terminators; space, tab, U+3000, FF, SOH indentation; blank, prefix-only, trailing-blank, over- and under-indented lines; non-ASCII text) in 10 expression contexts, plus every seed containing a multi-line literal; x random configurations (format_multiline_strings off in 20%)",
+    explanation="Theorems over the byte-level model of multiline_strings.rs: value preserved, re-indented exactly, rewritten iff eligible, idempotent, non-blank bytes kept; the lone-CR class (F5) is repaired and covered by the same theorems. The model is diffed against the real re-indentation on every literal; the oracle compares the value of every real literal before and after formatting with the Coq-defined ml_value, and checks byte-identity for ineligible, ignored or disabled literals.",
+    assumptions=["rs_ok (newline LF/CRLF, indentation strings of spaces/tabs): true for every configuration (rs_of_config)", "ends_quote for lexed multi-line literals"],
+)
+
+
+# ------------------------------------------------------------------ C14 and C04
+
+def directive_heavy(rng, n):
+    """sequences and nestings of conditional-compilation blocks around statements"""
+    out = []
+    depth = 0
+    for _ in range(n):
+        c = rng.random()
+        if c < 0.3:
+            out.append("{$IFDEF %s}" % rng.choice("ABC"))
+            depth += 1
+        elif c < 0.45 and depth:
+            out.append(rng.choice(["{$ELSE}", "{$ELSEIF X}"]))
+        elif c < 0.7 and depth:
+            out.append(rng.choice(["{$ENDIF}", "{$IFEND}"]))
+            depth -= 1
+        elif c < 0.75:
+            out.append(rng.choice(["{$ENDIF}", "{$ELSE}"]))  # unbalanced on purpose
+        else:
+            out.append(rng.choice(["Foo;", "begin", "end;", "X := 1;", "if A then", "procedure P;", "var", "A: B;", "case X of", "1: Y;"]))
+    return "\n".join(out) + "\n"
+
+
+def run_c14(ctx):
+    rng = ctx.rng
+    wf = []
+    for text, kind, wrap in wellformed_texts(ctx, ctx.n(300, 6000)):
+        wf.append(ctx.case(kind, text, gen.DEFAULT_CFG))
+        t2 = gen.relayout(text, rng)
+        if t2 is not None and rng.random() < 0.5:
+            wf.append(ctx.case("relayout", t2, gen.DEFAULT_CFG))
+    ctx.run_stream(wf, units=["passes", "linescover", "parents", "eofline"])
+    inv = []
+    texts = [s["text"] for s in gen.seeds()]
+    for _ in range(ctx.n(1500, 30000)):
+        inv.append(ctx.case("mut", gen.mutate(rng.choice(texts), rng, texts), gen.DEFAULT_CFG))
+    for _ in range(ctx.n(1500, 30000)):
+        inv.append(ctx.case("soup", gen.soup(rng, 1, 12), gen.DEFAULT_CFG))
+    for _ in range(ctx.n(300, 5000)):
+        inv.append(ctx.case("directives", directive_heavy(rng, rng.randrange(2, 30)), gen.DEFAULT_CFG))
+    for _ in range(ctx.n(100, 2000)):
+        inv.append(ctx.case("bytes", gen.random_bytes_text(rng, rng.randrange(1, 60)), gen.DEFAULT_CFG))
+    ctx.run_stream(inv, units=["passes", "linescover"])
+    ctx.hypotheses["H-P3 (grammar oracle): lines of each pass are built from its pass indices only"] = "lines_cover evaluated on the real parse result of every case (valid and invalid)"
+
+
+def run_c04(ctx):
+    rng = ctx.rng
+    texts = [s["text"] for s in gen.seeds()]
+    cases = []
+    # exhaustive short token sequences
+    for k in (1, 2):
+        for t in gen.soup_exhaustive(k):
+            cases.append(ctx.case("soup%d" % k, t, gen.DEFAULT_CFG))
+    if not ctx.quick():
+        sub = rng.sample(gen.ALPHABET, 45)
+        for t in gen.soup_exhaustive(3, sub):
+            cases.append(ctx.case("soup3", t, gen.DEFAULT_CFG))
+    else:
+        sub = rng.sample(gen.ALPHABET, 14)
+        for t in gen.soup_exhaustive(3, sub):
+            cases.append(ctx.case("soup3", t, gen.DEFAULT_CFG))
+    for _ in range(ctx.n(3000, 60000)):
+        cases.append(ctx.case("soup", gen.soup(rng, 2, 14), gen.random_cfg(rng)))
+    for _ in range(ctx.n(2500, 50000)):
+        t = gen.mutate(rng.choice(texts), rng, texts)
+        if rng.random() < 0.3:
+            t = gen.mutate(t, rng, texts)
+        cur = []
+        if rng.random() < 0.5:
+            b = char_boundaries(t)
+            cur = rng.sample(b, min(len(b), 6)) + [b[-1] + 5]
+        cases.append(ctx.case("mut", t, gen.random_cfg(rng), cursors=cur))
+    for _ in range(ctx.n(400, 6000)):
+        cases.append(ctx.case("directives", directive_heavy(rng, rng.randrange(2, 40)), gen.random_cfg(rng)))
+    for _ in range(ctx.n(300, 5000)):
+        cases.append(ctx.case("bytes", gen.random_bytes_text(rng, rng.randrange(1, 80)), gen.random_cfg(rng)))
+    for s in gen.seeds()[:: ctx.n(3, 1)]:
+        b = char_boundaries(s["text"])
+        cases.append(ctx.case("seedcur", s["text"], gen.random_cfg(rng), cursors=b[:: max(1, len(b) // 40)] + [b[-1] + 1]))
+    # moderate nesting depth (the extreme depth class is finding F11)
+    for d in (50, 200, 1000):
+        for opener, closer in (("(", ")"), ("begin ", "end; "), ("[", "]"), ("if a then ", "")):
+            cases.append(ctx.case("nest", "x := " * (opener == "(") + opener * d + "1" + closer * d + ";", gen.DEFAULT_CFG, meta={"depth": d}))
+    ctx.run_stream(cases, units=["passes", "cursor"], panics_are_failures=True, per_case_timeout=1.0)
+    if not ctx.quick():
+        # the plain release profile (no overflow checks): wrap-around instead of panic must not hang or crash either
+        ctx.run_stream([ctx.case(c.meta["stream"] + "-plain", c.text, c.cfg, cursors=c.cursors) for c in cases[:: 2]],
+                       mode="fmt", plain=True, panics_are_failures=True, per_case_timeout=1.0)
+    # scaling: sequences and nestings of conditional blocks must not multiply the work
+    import time as _t
+    times = []
+    for n in (4, 8, 16, 32):
+        seq = "".join("{$IFDEF A%d}\nFoo(%d);\n{$ELSE}\nBar(%d);\n{$ENDIF}\n" % (i, i, i) for i in range(n))
+        nest = "".join("{$IFDEF A%d}\nFoo(%d);\n" % (i, i) for i in range(n)) + "".join("{$ELSE}\nBar;\n{$ENDIF}\n" for _ in range(n))
+        t0 = _t.time()
+        res = ctx.run_stream([ctx.case("scale", seq, gen.DEFAULT_CFG, meta={"n": n}), ctx.case("scale", nest, gen.DEFAULT_CFG, meta={"n": n})],
+                             units=["passes"], panics_are_failures=True, per_case_timeout=20.0)
+        times.append((n, round(_t.time() - t0, 2)))
+    ctx.oracle_counts["directive_scaling_wall_s"] = times
+    if times[-1][1] > 30 and times[-1][1] > 20 * max(0.05, times[0][1]):
+        ctx.fail("superpolynomial_directives", None, "time for n conditional blocks: %r" % times)
+    ctx.hypotheses["termination and stack depth of the grammar recursion and of the wrapper search (runtime)"] = "watchdog: every case runs under a time bound scaled to its size; a hang or abort is attributed to its case"
+
+
+PROPS["C14"] = Spec(
+    coq_targets=["theories/Properties/C14.v"], module="Properties.C14",
+    theorems=["C14_pass_sorted", "C14_passes_cover", "C14_single_identity_pass"],
+    run=run_c14,
+    rule="well-formed seeds and grammar programs (also relayouted): all four clauses; mutated seeds, token soup, directive-heavy and arbitrary-byte inputs: ordering/coverage clauses; distinct = distinct input",
+    explanation="Theorems over the model of directive_tree.rs (tied by diffing the passes of every case through a hook): every pass is strictly increasing over valid non-directive indices, passes cover every non-directive token, one identity pass without directives. The acceptance predicates lines_cover / parents_ok / eof_line_ok are defined in Coq and evaluated by extracted code on the real parse result of every case. Partial: the grammar and consolidate_pass_lines are not modelled yet, so 'every token is in a line' rests on the evaluated predicate, not on a theorem.",
+    assumptions=["H-P3 (grammar oracle)"],
+)
+PROPS["C04"] = Spec(
+    coq_targets=["theories/Properties/C04.v"], module="Properties.C04",
+    theorems=["C04_directive_parse_total", "C04_passes_linear", "C04_pass_progress", "C04_cursor_no_underflow", "C04_cursor_boundary_no_panic"],
+    run=run_c04, needs_plain=True,
+    rule="exhaustive token sequences of length 1 and 2 over a 150-token alphabet, length 3 over a sampled sub-alphabet (14 quick / 45 thorough), random soup of length 2-14, mutated and doubly mutated seeds with cursor lists on character boundaries, directive-heavy inputs, arbitrary bytes, nesting depth 50/200/1000, directive scaling series; checked build (overflow checks, debug assertions) and, in the thorough tier, the plain release build",
+    explanation="Theorems: the directive-pass generator is total and the number of passes is linear in the number of directives (no exponential blow-up); cursor relocation cannot underflow; boundary cursors cannot make process_cursors slice inside a character. Everything else about termination is runtime behaviour: each case runs in a worker under a time bound; aborts (panic location normalised to the file) and hangs are violations unless they match a listed finding class.",
+    assumptions=["termination and stack depth of the real grammar recursion and wrapper search are sampled, not proved"],
+)
